@@ -42,8 +42,22 @@ def remove_if_targets():
     sz = lambda: Fn('detail_size', TU, 'size', flt='nano::', select=det, types=T1, members=[(r'^size\|', '{*self}.n')], ret='int64_t')
     cp = lambda: Fn('detail_copy', TU, 'copy', flt='nano::', select=det, types=T1, calls=[(r'^operator\(\)\|', '{0}.p[{1}]')], uf_float=False)
     H = D + 'removeif.h'
+    # the (rank 1, rank 2, rank 1) instantiation of solver/bundle.h: same loops, three tensors (expanded pack tensors_0..2)
+    TY = [(r'tensor_t<nano::tensor_marray_storage_t, double, 1>', 'struct nv_t1d'), (r'tensor_t<nano::tensor_marray_storage_t, double, 2>', 'struct nv_t2d'),
+          (r'nvdrv::op_t', 'struct nv_op')]
+    tri = lambda d: 'marray' in d.get('mangledName', '')
+    rm3f = lambda: Fn('remove_if', TU, 'remove_if', flt='nano::', select=tri, types=TY, ret='int64_t', uf_float=False,
+             calls=[(r'^forward\|', '{0}'), (r'^size\|long \(const nano::tensor_t', 'detail_size'), (r'^copy\|.*double, 2> &\)', 'nv_copy_rows'),
+                    (r'^copy\|', 'detail_copy'), (r'^operator\(\)\|bool \(nvdrv::ts\) const', 'nv_op({1})')])
+    sz3 = lambda: Fn('detail_size', TU, 'size', flt='nano::', select=lambda d: tri(d) and 'detail' in d.get('mangledName', ''), types=TY,
+                     members=[(r'^size\|', '{*self}.n')], ret='int64_t')
+    cp3 = lambda: Fn('detail_copy', TU, 'copy', flt='nano::', select=lambda d: 'detail' in d.get('mangledName', '') and 'marray_storage_tEdLm1' in d.get('mangledName', ''),
+                     types=TY, calls=[(r'^operator\(\)\|', '{0}.p[{1}]')], uf_float=False)
     return [Target('remove_if', [rm, sz(), cp()], H, replace=['detail_size', 'detail_copy']),
-            Target('detail_size', [sz()], H), Target('detail_copy', [cp()], H)]
+            Target('detail_size', [sz()], H), Target('detail_copy', [cp()], H),
+            Target('detail_size_3', [sz3()], H, defines=['NV_TRIPLE', 'NV_TRK=tensors_0']), Target('detail_copy_marray', [cp3()], H, defines=['NV_TRIPLE', 'NV_TRK=tensors_0'])] + \
+        [Target(f'remove_if_3_track{k}', [rm3f(), sz3(), cp3()], H, replace=['detail_size', 'detail_copy'], defines=['NV_TRIPLE', f'NV_TRK=tensors_{k}'])
+         for k in (0, 1, 2)]
 
 
 def smt2c(t):
